@@ -81,6 +81,41 @@ func genC17(g *G) {
 		g.emit("secp.mul", h(a.x), h(a.y), hx(k))
 		g.emit("secp.basemul", hx(k))
 	}
+	// points with a small y² (added after seeded change C17-g, an IsOnCurve that compares the unreduced x³+7, wrong exactly
+	// when y² mod p < 7) and, symmetrically, a small x³: p ≡ 7 (mod 9), so a^((p+2)/9) is a cube root of every cubic residue
+	// a; p ≡ 3 (mod 4), so a^((p+1)/4) is a square root of every quadratic residue
+	{
+		cbrtExp := new(big.Int).Div(new(big.Int).Add(p.P, big.NewInt(2)), big.NewInt(9))
+		sqrtExp := new(big.Int).Div(new(big.Int).Add(p.P, big.NewInt(1)), big.NewInt(4))
+		seven := big.NewInt(7)
+		for yv := int64(0); yv <= 40; yv++ {
+			for _, y := range []*big.Int{big.NewInt(yv), new(big.Int).Sub(p.P, big.NewInt(yv))} {
+				a := new(big.Int).Mul(y, y)
+				a.Sub(a, seven).Mod(a, p.P)
+				r := new(big.Int).Exp(a, cbrtExp, p.P)
+				g.emit("secp.oncurve", h(r), h(y)) // on the curve iff a is a cubic residue
+				if new(big.Int).Exp(r, big.NewInt(3), p.P).Cmp(a) == 0 && y.Sign() != 0 && y.Cmp(p.P) < 0 {
+					q := pt{r, new(big.Int).Set(y)}
+					add(q, G1)
+					add(q, q)
+					g.emit("secp.mul", h(q.x), h(q.y), "03")
+				}
+			}
+		}
+		for xv := int64(0); xv <= 40; xv++ {
+			for _, x := range []*big.Int{big.NewInt(xv), new(big.Int).Sub(p.P, big.NewInt(xv))} {
+				a := new(big.Int).Exp(x, big.NewInt(3), p.P)
+				a.Add(a, seven).Mod(a, p.P)
+				r := new(big.Int).Exp(a, sqrtExp, p.P)
+				g.emit("secp.oncurve", h(x), h(r))
+				if new(big.Int).Mul(r, r).Mod(new(big.Int).Mul(r, r), p.P).Cmp(a) == 0 && x.Cmp(p.P) < 0 && r.Sign() != 0 {
+					q := pt{new(big.Int).Set(x), r}
+					add(q, neg(q))
+					g.emit("secp.double", h(q.x), h(q.y))
+				}
+			}
+		}
+	}
 	add(O, O)
 	add(G1, G1)
 	add(G1, neg(G1))
